@@ -28,6 +28,7 @@ package c14
 
 import (
 	"bytes"
+	"encoding/base64"
 	"fmt"
 	"io"
 	"runtime/debug"
@@ -400,6 +401,42 @@ func (e *env) verifyShaped(v tink.Verifier, pub *keyset.Handle, msg []byte) {
 	}
 }
 
+// verifyShapedJWT is verifyShaped for JWT verifiers: for every algorithm name a compact token with a
+// well-formed header (with and without the kid a key-ID-derived kid strategy expects for each entry),
+// a well-formed payload and a garbage signature of that algorithm's length.
+func (e *env) verifyShapedJWT(v jwt.Verifier, pub *keyset.Handle, val *jwt.Validator) {
+	if v == nil || pub == nil || val == nil {
+		return
+	}
+	kids := []string{""}
+	e.guard("Handle.Entry", func() {
+		for i := 0; i < pub.Len(); i++ {
+			if en, err := pub.Entry(i); err == nil {
+				id := en.KeyID()
+				kids = append(kids, base64.RawURLEncoding.EncodeToString([]byte{byte(id >> 24), byte(id >> 16), byte(id >> 8), byte(id)}))
+			}
+		}
+	})
+	algs := []struct {
+		name string
+		n    int
+	}{{"ES256", 64}, {"ES384", 96}, {"ES512", 132}, {"RS256", 256}, {"RS384", 384}, {"RS512", 512}, {"PS256", 256}, {"PS384", 384}, {"PS512", 512},
+		{"ML-DSA-44", 2420}, {"ML-DSA-65", 3309}, {"ML-DSA-87", 4627}}
+	payload := base64.RawURLEncoding.EncodeToString([]byte(`{"sub":"s"}`))
+	e.guard("jwt.Verifier.VerifyAndDecode(well-formed token, garbage signature)", func() {
+		for _, kid := range kids {
+			for _, a := range algs {
+				hdr := `{"alg":"` + a.name + `"}`
+				if kid != "" {
+					hdr = `{"alg":"` + a.name + `","kid":"` + kid + `"}`
+				}
+				v.VerifyAndDecode(base64.RawURLEncoding.EncodeToString([]byte(hdr))+"."+payload+"."+base64.RawURLEncoding.EncodeToString(bytes.Repeat([]byte{1}, a.n)), val)
+			}
+		}
+	})
+	evid.Add("shaped_jwt_tokens_verified", 1)
+}
+
 func hasSLHPrivate(info *tinkpb.KeysetInfo) bool {
 	for _, ki := range info.KeyInfo {
 		if shortType(ki.TypeUrl) == "SlhDsaPrivateKey" && ki.Status == tinkpb.KeyStatusType_ENABLED {
@@ -700,6 +737,7 @@ func (e *env) runFactory(f string, h *keyset.Handle, info *tinkpb.KeysetInfo, in
 				return result{oFactoryErr, errOf(err)}
 			}
 			e.guard("jwt.Verifier.VerifyAndDecode(garbage)", func() { v.VerifyAndDecode(garbageTok, val); v.VerifyAndDecode("", val) })
+			e.verifyShapedJWT(v, h, val)
 			return result{oPublicOnly, ""}
 		}
 		var s jwt.Signer
@@ -726,6 +764,7 @@ func (e *env) runFactory(f string, h *keyset.Handle, info *tinkpb.KeysetInfo, in
 			v.VerifyAndDecode("", val)
 			v.VerifyAndDecode(tok[:len(tok)/2], val)
 		})
+		e.verifyShapedJWT(v, pub, val)
 		if cerr != nil || got == nil {
 			return result{oInconsistent, fmt.Sprintf("token %q; VerifyAndDecode under Public(): %v", tok, cerr)}
 		}
